@@ -9,7 +9,7 @@ V = os.path.dirname(os.path.dirname(os.path.abspath(__file__)))
 sys.path.insert(0, os.path.join(V, "sa"))
 from props import PROPS
 
-SEED_BASES = ["87c37a6", "3f0a31d"]  # earlier /repo HEADs the seeding sub-agents worked from (newest first)
+SEED_BASES = ["b788a24", "87c37a6", "3f0a31d"]  # earlier /repo HEADs the seeding sub-agents worked from (newest first)
 _BASELINES = {}
 ALL = [p for p in ["C%02d" % i for i in range(1, 21)] if p in PROPS]
 
